@@ -58,6 +58,7 @@ class VttContext:
     self._colors_used: Dict[str, str] = {}
     self._background_colors_used: Dict[str, str] = {}
     self._config = config
+    self._has_visible_text: bool = False
 
     self._filters = []
 
@@ -162,6 +163,8 @@ class VttContext:
       self._paragraphs[-1].append_text("\n")
 
     if isinstance(element, model.Text):
+      if not element.get_text().isspace():
+        self._has_visible_text = True
       # "&", "<" and ">" are markup in WebVTT cue text
       self._paragraphs[-1].append_text(
         element.get_text().replace("&", "&amp;").replace("<", "&lt;").replace(">", "&gt;")
@@ -202,13 +205,14 @@ class VttContext:
         cue.set_textalign(VttCue.TextAlignment.left if direction == DirectionType.rtl else VttCue.TextAlignment.right)
 
     self._paragraphs.append(cue)
+    self._has_visible_text = False
 
     for elem in list(element):
       self.process_inline_element(elem, begin, end)
     
     self._paragraphs[-1].normalize_eol()
 
-    if self._paragraphs[-1].is_only_whitespace_or_empty():
+    if self._paragraphs[-1].is_only_whitespace_or_empty() or not self._has_visible_text:
       LOGGER.debug("Removing empty paragraph.")
       self._paragraphs.pop()
       self._captions_counter -= 1
